@@ -18,6 +18,7 @@ mod c11;
 mod c09;
 mod c20;
 mod c12;
+mod c05;
 mod common;
 mod dict;
 mod world;
@@ -63,6 +64,7 @@ fn main() {
         "C09" => c09::run(&mut run),
         "C20" => c20::run(&mut run),
         "C12" => c12::run(&mut run),
+        "C05" => c05::run(&mut run),
         _ => { eprintln!("unknown property {}", prop); std::process::exit(2); }
     }
     run.finish();
